@@ -43,6 +43,7 @@ type Obligation struct {
 	OutsideRegion string // for known findings: status of the clause outside the listed region
 	Replayed  bool
 	ReplayObs string
+	ReplayTests []map[string]string
 }
 
 type pathGoal struct {
